@@ -2,109 +2,734 @@ package main
 
 import (
 	"go/token"
+	"go/types"
 	"strings"
 
 	"golang.org/x/tools/go/ssa"
 )
 
+// C03 "a request is routed to the most specific matching route".
+//
+// The rules find their sites by ROLE (DESIGN 11.8), not by the name of the unexported function that happens to hold
+// them today:
+//
+//	host comparison site   a string ==/!=, strings.EqualFold or glob.Glob.Match whose one operand derives from a key of a
+//	                       range over a route.Table and whose other operand derives from http.Request.Host, executed
+//	                       inside that range loop (directly or in a helper called from it)              -> N1, L1
+//	host matcher           the function that holds such a loop                                           -> L1, O3
+//	path-matcher call      a call of a value of signature func(string, *route.Route) bool                -> L1
+//	route scan             the innermost loop around a path-matcher call (or slices.IndexFunc)           -> L1
+//	reverser               a string->string function that reverses runes/bytes (or route.ReverseHostPort)
+//	specificity sort       a sort of a []string in a function that also applies a reverser              -> O2
+//	sort-all               a range over a route.Table whose body sorts the element of type route.Routes  -> O1
+//	command appliers       functions with a route.Table and a *route.RouteDef parameter                  -> O1
+//
+// Named anchors are exported API only: route.NewTable, route.NewTableCustom, route.Table.Lookup.
 func init() {
 	register(&propDef{
 		ID:      "C03",
 		Level:   "other",
-		Explain: "Structural necessary conditions of 'most specific matching route': (N1) in every Table method that selects host keys for a request, the request-host operand and the pattern operand of the comparison / glob match pass through the same normaliser chain (lower-casing and default-port removal) — an upper-case Host header must match whether or not glob matching is enabled; (K1) every index/update/delete on a route.Table uses a canonical (lower-cased) host key; (O1) both table constructors sort each host's routes (sort.Sort on every Routes value) on every successful return and dispatch the same command set; (O2) each host matcher returns its host list through the reverse-host sort; (O3) in Table.Lookup the host-less key \"\" is appended after the matched hosts and the loop stops at the first host that yields a target (except the self-redirect continue); (L1) Table.lookup lower-cases its key and returns at the first route the matcher accepts, 'no targets' yielding nil, and the host matchers compare against every key of the table. (L1, extended) every route of the host is offered to the configured matcher: no path from the loop body back to the loop head skips the match call (no pre-filter); Not decided: that reversed-name order equals DNS specificity and the truth tables of the prefix/iprefix/glob matchers (string order, third-party glob semantics).",
+		Explain: "Structural necessary conditions of 'most specific matching route'. Sites are found by role in package route (see c03.go), only exported API is named. (N1) wherever a key of a range over the route.Table is compared with / glob-matched against a value derived from the request's Host, both operands pass through the same normalisation: lower-casing on every path (or strings.EqualFold) and default-port removal (:80/:443) — an upper-case Host header or 'host:80' must match whether or not glob matching is enabled; (K1) every index/update/delete on a route.Table uses a canonical (lower-cased) host key; (O1) every function that hands out a freshly made route.Table (NewTable, NewTableCustom and whatever they delegate to) sorts each host's routes (a range over the table sorting every Routes value, possibly in a helper) after the last command was applied and before every return that carries a table, and both constructors reach the same set of command appliers; (O2) the list of host keys tried by Table.Lookup comes, on every path, out of a specificity sort: a sort of the []string in a function that applies the host reverser, in descending order; (O3) in Table.Lookup the host-less key \"\" is appended after the matched hosts (which derive from the table's keys) and the loop stops at the first host that yields a target (except the self-redirect continue); (L1) the table index feeding a route scan uses a lower-cased key (or a table key) at every call site; every route of the host is offered to the configured matcher (no path round the loop skips the matcher call, no pre-filter) and the scan ends at the first route the matcher accepts; the host matchers examine every key of the table (no exit from the key loop, no return of a host list that bypasses it). Not decided: that reversed-name order equals DNS specificity and the truth tables of the prefix/iprefix/glob matchers (string order, third-party glob semantics).",
 		Run:     runC03,
 		Trusted: []string{"sort.Sort orders by Less; Routes.Less orders paths descending", "gobwas/glob matching"},
-		Mutants: []mutant{
-			{Name: "length pre-filter before the matcher", File: "route/table.go", Old: "\t\tif match(path, r) {", New: "\t\tif len(r.Path) > len(path) {\n\t\t\tcontinue\n\t\t}\n\t\tif match(path, r) {", Expect: "C03.L1"},
-
-			{Name: "no-glob matcher compares the raw request host", File: "route/table.go", Old: "\thost := normalizeHost(req.Host, req.TLS != nil)\n\n\tfor pattern := range t {", New: "\thost := normalizeHostNoLower(req.Host, req.TLS != nil)\n\n\tfor pattern := range t {", Expect: "C03.N1"},
-			{Name: "glob matcher does not strip the default port of the request", File: "route/table.go", Old: "\thost := normalizeHost(req.Host, req.TLS != nil)\n\tfor pattern := range t {", New: "\thost := strings.ToLower(req.Host)\n\tfor pattern := range t {", Expect: "C03.N1"},
-			{Name: "lookup with the raw host", File: "route/table.go", Old: "\thost = strings.ToLower(host) // routes are always added lowercase\n", New: "", Expect: "C03.K1"},
-			{Name: "custom constructor does not sort", File: "route/table.go", Old: "\t// Sort the route table for each hostname\n\tfor _, h := range t {\n\t\tsort.Sort(h)\n\t}\n\n\treturn t, nil\n}\n\n// addRoute", New: "\treturn t, nil\n}\n\n// addRoute", Expect: "C03.O1"},
-			{Name: "host list returned unsorted", File: "route/table.go", Old: "\thosts = sortHostsReverseHostPort(hosts)\n\treturn\n}\n\n// Issue 548 - Added separate func", New: "\treturn\n}\n\n// Issue 548 - Added separate func", Expect: "C03.O2"},
-			{Name: "host-less routes tried first", File: "route/table.go", Old: "\thosts = append(hosts, \"\")\n\tfor _, h := range hosts {", New: "\thosts = append([]string{\"\"}, hosts...)\n\tfor _, h := range hosts {", Expect: "C03.O3"},
-			{Name: "lookup keeps searching after the first match", File: "route/table.go", Old: "\t\t\tif trace != \"\" {\n\t\t\t\tlog.Printf(\"[TRACE] %s Match %s%s\", trace, r.Host, r.Path)\n\t\t\t}\n\t\t\treturn target", New: "\t\t\tif trace != \"\" {\n\t\t\t\tlog.Printf(\"[TRACE] %s Match %s%s\", trace, r.Host, r.Path)\n\t\t\t}\n\t\t\tlast = target\n\t\t\tcontinue", Expect: "C03.L1",
-				More: []repl{{"\thost = strings.ToLower(host) // routes are always added lowercase\n", "\tvar last *Target\n\tdefer func() { _ = last }()\n\thost = strings.ToLower(host) // routes are always added lowercase\n"}}},
-			{Name: "benign: normaliser inlined on both sides", File: "route/table.go", Old: "\t\tnormpat := normalizeHost(pattern, req.TLS != nil)\n\t\tif normpat == host {", New: "\t\tnormpat := strings.ToLower(normalizeHostNoLower(pattern, req.TLS != nil))\n\t\tif normpat == host {", Expect: ""},
-		},
+		Mutants: c03Mutants,
 	})
 }
 
 func runC03(c *Ctx) {
-	runC03N1(c)
-	runTableKeys(c, "C03.K1")
+	c03BuildInvoked(c)
+	r := c03FindRoles(c)
+	runC03N1(c, r)
+	c03TableKeys(c)
 	runC03O1(c)
-	runC03O2O3L1(c)
+	runC03O2O3(c, r)
+	runC03L1(c, r)
 }
 
-// normalisers applied to a value on its way from `from`: the set of repo normaliser functions and
-// strings.ToLower it passes through (order-insensitive signature).
-func normChain(c *Ctx, v ssa.Value, depth int) map[string]bool {
-	out := map[string]bool{}
-	var walk func(x ssa.Value, d int)
-	seen := map[ssa.Value]bool{}
-	walk = func(x ssa.Value, d int) {
-		if x == nil || seen[x] || d > 8 {
-			return
-		}
-		seen[x] = true
-		switch y := x.(type) {
-		case *ssa.Call:
-			n := calleeName(&y.Call)
-			switch {
-			case n == "strings.ToLower":
-				out["lower"] = true
-				walk(y.Call.Args[0], d+1)
-			case y.Call.StaticCallee() != nil && isRepoFn(y.Call.StaticCallee()):
-				// expand the callee: which normalisers does its result pass through?
-				sc := y.Call.StaticCallee()
-				sub := map[string]bool{}
-				eachInstr(sc, func(i ssa.Instruction) {
-					if r, ok := i.(*ssa.Return); ok && len(r.Results) > 0 {
-						for k := range normChain(c, r.Results[0], depth+1) {
-							sub[k] = true
-						}
-					}
-				})
-				for k := range sub {
-					out[k] = true
-				}
-				// strips the default port? (slices off ":80"/":443" suffixes)
-				strips := false
-				eachInstr(sc, func(i ssa.Instruction) {
-					if cc := callCommon(i); cc != nil && calleeName(cc) == "strings.HasSuffix" {
-						if s, ok := constString(cc.Args[1]); ok && (s == ":80" || s == ":443") {
-							strips = true
-						}
-					}
-				})
-				if strips {
-					out["defaultport"] = true
-				}
-				for _, a := range y.Call.Args {
-					walk(a, d+1)
-				}
-			}
-		case *ssa.Phi:
-			for _, e := range y.Edges {
-				walk(e, d+1)
-			}
-		case *ssa.Slice:
-			walk(y.X, d+1)
-		case *ssa.Parameter:
-			// parameter of a normaliser being expanded: stop
+// ---- small local helpers (copies of helpers that live in other properties' files, so that this file only depends
+// on the shared core) ---------------------------------------------------------------------------------------------
+
+func c03StripIface(v ssa.Value) ssa.Value {
+	for {
+		switch x := v.(type) {
+		case *ssa.MakeInterface:
+			v = x.X
+		case *ssa.ChangeInterface:
+			v = x.X
+		default:
+			return v
 		}
 	}
-	walk(v, 0)
+}
+
+func c03RootPkg(f *ssa.Function) *ssa.Package {
+	for f.Parent() != nil {
+		f = f.Parent()
+	}
+	return f.Pkg
+}
+
+// c03PathWithin: is there a path from the start of block b to the start of block target that runs through blocks of
+// body only (it stays inside the loop) and executes no instruction matching avoid (a static call of a repository
+// helper that does it on all of its paths counts as doing it)?
+func c03PathWithin(b, target *ssa.BasicBlock, body map[*ssa.BasicBlock]bool, avoid func(ssa.Instruction) bool) bool {
+	avoid = liftMust(avoid, 1)
+	seen := map[*ssa.BasicBlock]bool{b: true}
+	stack := []*ssa.BasicBlock{b}
+	for len(stack) > 0 {
+		x := stack[len(stack)-1]
+		stack = stack[:len(stack)-1]
+		blocked := false
+		for _, in := range x.Instrs {
+			if avoid(in) {
+				blocked = true
+				break
+			}
+		}
+		if blocked {
+			continue
+		}
+		for _, sx := range x.Succs {
+			if sx == target {
+				return true
+			}
+			if body[sx] && !seen[sx] {
+				seen[sx] = true
+				stack = append(stack, sx)
+			}
+		}
+	}
+	return false
+}
+
+// c03ReachFromEntry: can instruction target be reached from f's entry without executing an instruction matching
+// avoid (lifted through helpers that do it on every path)?
+func c03ReachFromEntry(f *ssa.Function, target ssa.Instruction, avoid func(ssa.Instruction) bool) bool {
+	if f == nil || len(f.Blocks) == 0 {
+		return false
+	}
+	avoid = liftMust(avoid, 1)
+	seen := map[*ssa.BasicBlock]bool{f.Blocks[0]: true}
+	stack := []*ssa.BasicBlock{f.Blocks[0]}
+	for len(stack) > 0 {
+		x := stack[len(stack)-1]
+		stack = stack[:len(stack)-1]
+		blocked := false
+		for _, in := range x.Instrs {
+			if in == target {
+				return true
+			}
+			if avoid(in) {
+				blocked = true
+				break
+			}
+		}
+		if blocked {
+			continue
+		}
+		for _, sx := range x.Succs {
+			if !seen[sx] {
+				seen[sx] = true
+				stack = append(stack, sx)
+			}
+		}
+	}
+	return false
+}
+
+// c03SitesComplete: the static call sites of fn in the repository are all of its calls. fabio is a program, not a
+// library: an exported function has no callers outside the loaded packages, so — unlike onlyStaticallyCalled — the
+// name does not matter; what matters is that fn is never used as a value and cannot be reached through an interface.
+func c03SitesComplete(fn *ssa.Function) bool {
+	if fn == nil || gAddrTaken[fn] || len(gSites[fn]) == 0 {
+		return false
+	}
+	if fn.Parent() != nil {
+		return true
+	}
+	if fn.Name() == "init" || fn.Name() == "main" {
+		return false
+	}
+	recv := fn.Signature.Recv()
+	if recv == nil || !gInvoked[fn.Name()] {
+		return true
+	}
+	// a method whose name is also called through some interface: reachable that way only if the receiver type
+	// implements one of the interfaces the name is invoked on
+	for _, it := range c03Invoked[fn.Name()] {
+		if types.Implements(recv.Type(), it) || types.Implements(types.NewPointer(recv.Type()), it) {
+			return false
+		}
+	}
+	return true
+}
+
+// c03Invoked: method name -> the interface types it is invoked on anywhere in the repository (rebuilt per run).
+var c03Invoked map[string][]*types.Interface
+
+func c03BuildInvoked(c *Ctx) {
+	c03Invoked = map[string][]*types.Interface{}
+	seen := map[*types.Interface]map[string]bool{}
+	for _, f := range c.AllFns {
+		eachInstr(f, func(i ssa.Instruction) {
+			cc := callCommon(i)
+			if cc == nil || !cc.IsInvoke() {
+				return
+			}
+			it, ok := cc.Value.Type().Underlying().(*types.Interface)
+			if !ok {
+				return
+			}
+			n := cc.Method.Name()
+			if seen[it] == nil {
+				seen[it] = map[string]bool{}
+			}
+			if !seen[it][n] {
+				seen[it][n] = true
+				c03Invoked[n] = append(c03Invoked[n], it)
+			}
+		})
+	}
+}
+
+func c03IsString(t types.Type) bool {
+	b, ok := t.Underlying().(*types.Basic)
+	return ok && b.Info()&types.IsString != 0
+}
+
+func c03IsStringSlice(t types.Type) bool {
+	s, ok := t.Underlying().(*types.Slice)
+	return ok && c03IsString(s.Elem())
+}
+
+func c03IsTableT(t types.Type) bool { return namedIs(t, "route.Table") }
+
+// c03Name: callee name without type arguments ("slices.SortFunc[[]string string]" -> "slices.SortFunc").
+func c03Name(cc *ssa.CallCommon) string {
+	n := calleeName(cc)
+	if k := strings.Index(n, "["); k >= 0 {
+		n = n[:k]
+	}
+	return n
+}
+
+// c03TableKey: v is the key delivered by a range over a route.Table.
+func c03TableKey(v ssa.Value) (*ssa.Next, bool) {
+	e, ok := v.(*ssa.Extract)
+	if !ok || e.Index != 1 {
+		return nil, false
+	}
+	nx, ok := e.Tuple.(*ssa.Next)
+	if !ok || nx.IsString {
+		return nil, false
+	}
+	rg, ok := nx.Iter.(*ssa.Range)
+	if !ok {
+		return nil, false
+	}
+	x := rg.X
+	for {
+		if c03IsTableT(x.Type()) {
+			return nx, true
+		}
+		ct, ok := x.(*ssa.ChangeType)
+		if !ok {
+			return nil, false
+		}
+		x = ct.X
+	}
+}
+
+// c03KeyList: v is the list of all keys of a route.Table collected by the standard library
+// (slices.Sorted(maps.Keys(t)), slices.Collect(maps.Keys(t))).
+func c03KeyList(v ssa.Value) bool {
+	call, ok := v.(*ssa.Call)
+	if !ok || len(call.Call.Args) == 0 {
+		return false
+	}
+	switch c03Name(&call.Call) {
+	case "slices.Sorted", "slices.Collect":
+	default:
+		return false
+	}
+	in, ok := call.Call.Args[0].(*ssa.Call)
+	return ok && c03Name(&in.Call) == "maps.Keys" && len(in.Call.Args) == 1 && c03IsTableT(in.Call.Args[0].Type())
+}
+
+// c03LoopIterates: loop l takes its elements from list (an element address of list is computed in its body).
+func c03LoopIterates(l *loop, list ssa.Value) bool {
+	for b := range l.Body {
+		for _, in := range b.Instrs {
+			if ia, ok := in.(*ssa.IndexAddr); ok && c03ListBaseOf(ia.X) == list {
+				return true
+			}
+		}
+	}
+	return false
+}
+
+func c03ListBaseOf(v ssa.Value) ssa.Value {
+	for {
+		switch x := v.(type) {
+		case *ssa.ChangeType:
+			v = x.X
+		case *ssa.Slice:
+			v = x.X
+		default:
+			return v
+		}
+	}
+}
+
+func c03InnermostLoop(f *ssa.Function, b *ssa.BasicBlock) *loop {
+	var best *loop
+	for _, l := range loopsOf(f) {
+		if l.Body[b] && (best == nil || len(l.Body) < len(best.Body)) {
+			best = l
+		}
+	}
+	return best
+}
+
+// c03EnclosingLoops: the loops around instruction i, innermost first: in its own function and, for a helper or a
+// closure, around its static call sites / the place where the closure is made (two levels up).
+func c03EnclosingLoops(i ssa.Instruction, depth int) []*loop {
+	f := i.Parent()
+	if f == nil || i.Block() == nil {
+		return nil
+	}
+	var out []*loop
+	for _, l := range loopsOf(f) {
+		if l.Body[i.Block()] {
+			out = append(out, l)
+		}
+	}
+	// innermost first
+	for a := 0; a < len(out); a++ {
+		for b := a + 1; b < len(out); b++ {
+			if len(out[b].Body) < len(out[a].Body) {
+				out[a], out[b] = out[b], out[a]
+			}
+		}
+	}
+	if depth >= 2 {
+		return out
+	}
+	for _, s := range gSites[f] {
+		if s.Parent() != f {
+			out = append(out, c03EnclosingLoops(s, depth+1)...)
+		}
+	}
+	if p := f.Parent(); p != nil {
+		eachInstr(p, func(j ssa.Instruction) {
+			if mc, ok := j.(*ssa.MakeClosure); ok && mc.Fn == f {
+				out = append(out, c03EnclosingLoops(mc, depth+1)...)
+			}
+		})
+	}
 	return out
 }
 
-func chainStr(m map[string]bool) string {
-	var s []string
-	for _, k := range []string{"lower", "defaultport"} {
-		if m[k] {
-			s = append(s, k)
+// ---- roles -----------------------------------------------------------------------------------------------------
+
+type c03Site struct {
+	fn       *ssa.Function
+	instr    ssa.Instruction
+	pat, req ssa.Value
+	fold     bool  // strings.EqualFold: case-insensitive by construction
+	loop     *loop // the key loop it runs in
+}
+
+type c03Roles struct {
+	routeFns   []*ssa.Function
+	sites      []c03Site
+	keyLoops   []*loop // distinct key loops holding a site (the host matchers' loops)
+	matcherFns map[*ssa.Function]bool
+	matchCalls []*ssa.Call
+	innerFns   map[*ssa.Function]bool // functions holding a path-matcher call
+}
+
+func c03FindRoles(c *Ctx) *c03Roles {
+	r := &c03Roles{matcherFns: map[*ssa.Function]bool{}, innerFns: map[*ssa.Function]bool{}}
+	r.routeFns = c.fnsWhere("route", func(*ssa.Function) bool { return true })
+	c03findSites(r)
+	c03findMatchCalls(r)
+	return r
+}
+
+func c03loopFn(l *loop) *ssa.Function { return l.Head.Parent() }
+
+// c03globPattern: the string a compiled glob was made from (argument of the call that produced it: a cache lookup
+// or glob.Compile).
+func c03globPattern(g ssa.Value) ssa.Value {
+	var pat ssa.Value
+	derives(g, func(y ssa.Value) bool {
+		call, ok := y.(*ssa.Call)
+		if !ok || call.Call.IsInvoke() {
+			return false
 		}
+		sig := call.Call.Signature()
+		if sig == nil {
+			return false
+		}
+		yields := false
+		for k := 0; k < sig.Results().Len(); k++ {
+			if namedIs(sig.Results().At(k).Type(), "glob.Glob") {
+				yields = true
+			}
+		}
+		if !yields {
+			return false
+		}
+		for _, a := range call.Call.Args {
+			if c03IsString(a.Type()) {
+				pat = a
+				return true
+			}
+		}
+		return false
+	})
+	return pat
+}
+
+func c03findSites(r *c03Roles) {
+	isReqHost := func(x ssa.Value) bool { _, ok := fieldOf(x, "http.Request", "Host"); return ok }
+	seenLoop := map[*ssa.BasicBlock]bool{}
+	for _, f := range r.routeFns {
+		ff := f
+		eachInstr(f, func(i ssa.Instruction) {
+			var a, b ssa.Value
+			fold := false
+			switch x := i.(type) {
+			case *ssa.BinOp:
+				if (x.Op != token.EQL && x.Op != token.NEQ) || !c03IsString(x.X.Type()) {
+					return
+				}
+				a, b = x.X, x.Y
+			case *ssa.Call:
+				switch {
+				case c03Name(&x.Call) == "strings.EqualFold" && len(x.Call.Args) == 2:
+					a, b, fold = x.Call.Args[0], x.Call.Args[1], true
+				case x.Call.IsInvoke() && x.Call.Method.Name() == "Match" && len(x.Call.Args) == 1 && c03IsString(x.Call.Args[0].Type()):
+					// g.Match(host): the pattern side is the string the glob was compiled from
+					b = x.Call.Args[0]
+					a = c03globPattern(x.Call.Value)
+					if a == nil {
+						return
+					}
+				default:
+					return
+				}
+			default:
+				return
+			}
+			// where does the key come from?
+			keyOf := func(v ssa.Value) (head *ssa.BasicBlock, list ssa.Value, ok bool) {
+				pred := func(x ssa.Value) bool {
+					if nx, isKey := c03TableKey(x); isKey {
+						head, ok = nx.Block(), true
+						return true
+					}
+					if c03KeyList(x) {
+						list, ok = x, true
+						return true
+					}
+					return false
+				}
+				if !derives(v, pred) {
+					derivesThroughRepo(v, pred)
+				}
+				return
+			}
+			fromReq := func(v ssa.Value) bool { return derives(v, isReqHost) || derivesThroughRepo(v, isReqHost) }
+			var pat, req ssa.Value
+			var head *ssa.BasicBlock
+			var list ssa.Value
+			if h, l, ok := keyOf(a); ok && fromReq(b) {
+				pat, req, head, list = a, b, h, l
+			} else if h, l, ok := keyOf(b); ok && fromReq(a) {
+				pat, req, head, list = b, a, h, l
+			} else {
+				return
+			}
+			// the comparison must run inside the key loop (this excludes comparisons of values that merely descend
+			// from a table entry, like a target's redirect URL)
+			var kl *loop
+			for _, l := range c03EnclosingLoops(i, 0) {
+				if (list != nil && c03LoopIterates(l, list)) || (list == nil && l.Head == head) {
+					kl = l
+					break
+				}
+			}
+			if kl == nil {
+				return
+			}
+			r.sites = append(r.sites, c03Site{fn: ff, instr: i, pat: pat, req: req, fold: fold, loop: kl})
+			if !seenLoop[kl.Head] {
+				seenLoop[kl.Head] = true
+				r.keyLoops = append(r.keyLoops, kl)
+				r.matcherFns[c03loopFn(kl)] = true
+			}
+		})
+	}
+}
+
+// ---- N1 --------------------------------------------------------------------------------------------------------
+
+// c03nf: what is known about a string on its way to a comparison. lower: on EVERY path the value went through
+// strings.ToLower (or is a lower-case constant). port: on SOME path a default port was cut off.
+type c03nf struct{ lower, port bool }
+
+type c03normKey struct {
+	v   ssa.Value
+	ctx ssa.CallInstruction
+}
+
+type c03normer struct {
+	state map[c03normKey]int // 1 = in progress
+	done  map[c03normKey]c03nf
+	stack []ssa.CallInstruction
+	hops  int
+}
+
+func c03Norm(v ssa.Value) c03nf {
+	n := &c03normer{state: map[c03normKey]int{}, done: map[c03normKey]c03nf{}}
+	return n.walk(v, 0)
+}
+
+func c03defaultPortConst(v ssa.Value, withColon bool) bool {
+	s, ok := constString(v)
+	if !ok {
+		return false
+	}
+	if withColon {
+		return s == ":80" || s == ":443"
+	}
+	return s == "80" || s == "443" || s == ":80" || s == ":443"
+}
+
+// c03mentionsDefaultPort: f (or a closure of it) tests a string against the default ports.
+func c03mentionsDefaultPort(f *ssa.Function) bool {
+	hit := false
+	for _, g := range withAnon(f) {
+		eachInstr(g, func(i ssa.Instruction) {
+			switch x := i.(type) {
+			case *ssa.BinOp:
+				if c03defaultPortConst(x.X, false) || c03defaultPortConst(x.Y, false) {
+					hit = true
+				}
+			default:
+				if cc := callCommon(i); cc != nil {
+					for _, a := range cc.Args {
+						if c03defaultPortConst(a, false) {
+							hit = true
+						}
+					}
+				}
+			}
+		})
+	}
+	return hit
+}
+
+func (n *c03normer) all(vs []ssa.Value, d int) c03nf {
+	out := c03nf{lower: true}
+	if len(vs) == 0 {
+		return c03nf{}
+	}
+	for _, v := range vs {
+		r := n.walk(v, d+1)
+		out.lower = out.lower && r.lower
+		out.port = out.port || r.port
+	}
+	return out
+}
+
+func (n *c03normer) walk(v ssa.Value, d int) (result c03nf) {
+	if v == nil || d > 40 {
+		return c03nf{}
+	}
+	var top ssa.CallInstruction
+	if len(n.stack) > 0 {
+		top = n.stack[len(n.stack)-1]
+	}
+	k := c03normKey{v, top}
+	if n.state[k] == 1 {
+		return c03nf{lower: true} // cycle through a phi: neutral
+	}
+	if r, ok := n.done[k]; ok {
+		return r
+	}
+	n.state[k] = 1
+	defer func() { n.state[k] = 0; n.done[k] = result }()
+
+	callee := func(call *ssa.Call, idx int) c03nf {
+		sc := call.Call.StaticCallee()
+		if sc == nil || !isRepoFn(sc) || len(sc.Blocks) == 0 || n.hops >= 6 {
+			return c03nf{}
+		}
+		n.hops++
+		n.stack = append(n.stack, ssa.CallInstruction(call))
+		defer func() { n.hops--; n.stack = n.stack[:len(n.stack)-1] }()
+		var res []ssa.Value
+		eachInstr(sc, func(i ssa.Instruction) {
+			if r, ok := i.(*ssa.Return); ok && idx < len(r.Results) {
+				res = append(res, r.Results[idx])
+			}
+		})
+		out := n.all(res, d)
+		if c03mentionsDefaultPort(sc) {
+			out.port = true
+		}
+		return out
+	}
+	stdlib := func(call *ssa.Call, idx int) (c03nf, bool) {
+		args := call.Call.Args
+		switch c03Name(&call.Call) {
+		case "strings.ToLower":
+			r := n.walk(args[0], d+1)
+			r.lower = true
+			return r, true
+		case "strings.TrimSuffix", "strings.CutSuffix":
+			if idx != 0 {
+				return c03nf{}, true
+			}
+			r := n.walk(args[0], d+1)
+			if c03defaultPortConst(args[1], true) {
+				r.port = true
+			}
+			return r, true
+		case "strings.TrimSpace", "strings.TrimRight", "strings.TrimLeft", "strings.Trim", "strings.TrimPrefix", "strings.TrimFunc", "strings.Clone":
+			return n.walk(args[0], d+1), true
+		case "net.SplitHostPort":
+			if idx != 0 {
+				return c03nf{}, true
+			}
+			r := n.walk(args[0], d+1)
+			if c03mentionsDefaultPort(call.Parent()) {
+				r.port = true
+			}
+			return r, true
+		}
+		return c03nf{}, false
+	}
+
+	switch x := v.(type) {
+	case *ssa.Const:
+		if s, ok := constString(x); ok {
+			return c03nf{lower: s == strings.ToLower(s)}
+		}
+		return c03nf{}
+	case *ssa.Call:
+		if r, ok := stdlib(x, 0); ok {
+			return r
+		}
+		return callee(x, 0)
+	case *ssa.Extract:
+		if call, ok := x.Tuple.(*ssa.Call); ok {
+			if r, ok := stdlib(call, x.Index); ok {
+				return r
+			}
+			return callee(call, x.Index)
+		}
+		return c03nf{} // a range key, a map lookup ...: the raw origin
+	case *ssa.Phi:
+		return n.all(x.Edges, d)
+	case *ssa.Slice:
+		r := n.walk(x.X, d+1)
+		for _, ft := range factsAt(x.Block()) {
+			if call, ok := ft.Cond.(*ssa.Call); ok && ft.Truth && c03Name(&call.Call) == "strings.HasSuffix" && c03defaultPortConst(call.Call.Args[1], true) {
+				r.port = true
+			}
+		}
+		return r
+	case *ssa.BinOp:
+		if x.Op == token.ADD {
+			return n.all([]ssa.Value{x.X, x.Y}, d)
+		}
+		return c03nf{}
+	case *ssa.ChangeType:
+		return n.walk(x.X, d+1)
+	case *ssa.Convert:
+		if c03IsString(x.X.Type()) {
+			return n.walk(x.X, d+1)
+		}
+		return c03nf{}
+	case *ssa.UnOp:
+		if x.Op != token.MUL {
+			return c03nf{}
+		}
+		cell := x.X
+		if fv, ok := cell.(*ssa.FreeVar); ok {
+			// a captured variable: the cell bound where the closure is made
+			fn := fv.Parent()
+			idx := -1
+			for k, w := range fn.FreeVars {
+				if w == fv {
+					idx = k
+				}
+			}
+			if p := fn.Parent(); p != nil && idx >= 0 {
+				eachInstr(p, func(i ssa.Instruction) {
+					if mc, ok := i.(*ssa.MakeClosure); ok && mc.Fn == fn && idx < len(mc.Bindings) {
+						cell = mc.Bindings[idx]
+					}
+				})
+			}
+		}
+		if a, ok := cell.(*ssa.Alloc); ok {
+			var vals []ssa.Value
+			for _, ref := range *a.Referrers() {
+				if st, ok := ref.(*ssa.Store); ok && st.Addr == a {
+					vals = append(vals, st.Val)
+				}
+			}
+			return n.all(vals, d)
+		}
+		return c03nf{} // a field (req.Host), an element: the raw origin
+	case *ssa.Parameter:
+		fn := x.Parent()
+		idx := -1
+		for k, p := range fn.Params {
+			if p == x {
+				idx = k
+			}
+		}
+		if idx < 0 {
+			return c03nf{}
+		}
+		if top != nil && top.Common().StaticCallee() == fn {
+			n.stack = n.stack[:len(n.stack)-1]
+			defer func() { n.stack = append(n.stack, top) }()
+			if idx < len(top.Common().Args) {
+				return n.walk(top.Common().Args[idx], d+1)
+			}
+			return c03nf{}
+		}
+		if top != nil || n.hops >= 6 || !c03SitesComplete(fn) {
+			return c03nf{}
+		}
+		// the comparison lives in a helper: what every caller passes
+		var vals []ssa.Value
+		for _, s := range gSites[fn] {
+			if idx < len(s.Common().Args) {
+				vals = append(vals, s.Common().Args[idx])
+			}
+		}
+		n.hops++
+		defer func() { n.hops-- }()
+		return n.all(vals, d)
+	}
+	return c03nf{}
+}
+
+func c03nfStr(x c03nf, fold bool) string {
+	var s []string
+	if x.lower || fold {
+		s = append(s, "lower")
+	}
+	if x.port {
+		s = append(s, "defaultport")
 	}
 	if len(s) == 0 {
 		return "none"
@@ -112,93 +737,18 @@ func chainStr(m map[string]bool) string {
 	return strings.Join(s, "+")
 }
 
-func runC03N1(c *Ctx) {
-	n := 0
-	for _, f := range c.AllFns {
-		if f.Signature.Recv() == nil || !namedIs(f.Signature.Recv().Type(), "route.Table") || len(f.Params) < 2 {
-			continue
-		}
-		if typeStr(f.Params[1].Type()) != "*net/http.Request" {
-			continue
-		}
-		// does it range over the receiver (host patterns)?
-		ranges := false
-		eachInstr(f, func(i ssa.Instruction) {
-			if rg, ok := i.(*ssa.Range); ok && rg.X == f.Params[0] {
-				ranges = true
-			}
-		})
-		if !ranges {
-			continue
-		}
-		// comparisons: pattern-side operand derives from the range key, request-side from req.Host
-		fromKey := func(v ssa.Value) bool {
-			return derives(v, func(x ssa.Value) bool {
-				e, ok := x.(*ssa.Extract)
-				if !ok {
-					return false
-				}
-				nx, ok := e.Tuple.(*ssa.Next)
-				return ok && e.Index == 1 && !nx.IsString
-			}) || derivesThroughRepo(v, func(x ssa.Value) bool {
-				e, ok := x.(*ssa.Extract)
-				if !ok {
-					return false
-				}
-				_, ok = e.Tuple.(*ssa.Next)
-				return ok && e.Index == 1
-			})
-		}
-		fromReqHost := func(v ssa.Value) bool {
-			return derivesThroughRepo(v, func(x ssa.Value) bool { _, ok := fieldOf(x, "http.Request", "Host"); return ok })
-		}
-		eachInstr(f, func(i ssa.Instruction) {
-			var a, b ssa.Value
-			switch x := i.(type) {
-			case *ssa.BinOp:
-				if x.Op != token.EQL && x.Op != token.NEQ {
-					return
-				}
-				a, b = x.X, x.Y
-			case *ssa.Call:
-				if !x.Call.IsInvoke() || x.Call.Method.Name() != "Match" {
-					return
-				}
-				// g.Match(host): pattern side is the compiled glob's source pattern
-				b = x.Call.Args[0]
-				// the glob comes from globCache.Get(normpat)
-				derives(x.Call.Value, func(y ssa.Value) bool {
-					if call, ok := y.(*ssa.Call); ok && call.Call.StaticCallee() != nil && call.Call.StaticCallee().Name() == "Get" && len(call.Call.Args) == 2 {
-						a = call.Call.Args[1]
-						return true
-					}
-					return false
-				})
-				if a == nil {
-					return
-				}
-			default:
-				return
-			}
-			var pat, req ssa.Value
-			switch {
-			case fromKey(a) && fromReqHost(b):
-				pat, req = a, b
-			case fromKey(b) && fromReqHost(a):
-				pat, req = b, a
-			default:
-				return
-			}
-			n++
-			pc, rc := normChain(c, pat, 0), normChain(c, req, 0)
-			c.check("C03.N1", fnKey(f)+"|request host and pattern normalised alike", i.Pos(), chainStr(pc) == chainStr(rc) && pc["lower"],
-				"the route's host pattern is normalised with ["+chainStr(pc)+"] but the request host with ["+chainStr(rc)+"]: hosts are case-insensitive and the default port is insignificant, so both operands must be lower-cased and port-stripped — otherwise 'Host: EXAMPLE.com' (or example.com:80) misses its host-specific routes in this matcher")
-		})
+func runC03N1(c *Ctx, r *c03Roles) {
+	for _, s := range r.sites {
+		pc, rc := c03Norm(s.pat), c03Norm(s.req)
+		ok := (s.fold || (pc.lower && rc.lower)) && rc.port && pc.port == rc.port
+		c.check("C03.N1", fnKey(c03loopFn(s.loop))+"|request host and pattern normalised alike", s.instr.Pos(), ok,
+			"the route's host pattern is normalised with ["+c03nfStr(pc, s.fold)+"] but the request host with ["+c03nfStr(rc, s.fold)+"]: hosts are case-insensitive and the default port is insignificant, so both operands must be lower-cased (on every path) and port-stripped — otherwise 'Host: EXAMPLE.com' (or example.com:80) misses its host-specific routes in this matcher")
 	}
-	c.atLeast("C03.N1", "host comparisons in the table's host matchers", n, 2)
+	c.atLeast("C03.N1", "comparisons of a table key with the request host inside a range over the route.Table", len(r.sites), 2)
 }
 
 // derivesThroughRepo: like derives, but also through calls of repo functions (normalisers) and Get-style lookups.
+// (Older and coarser than derives; kept because other properties' rules call it.)
 func derivesThroughRepo(v ssa.Value, pred func(ssa.Value) bool) bool {
 	seen := map[ssa.Value]bool{}
 	var walk func(x ssa.Value, d int) bool
@@ -241,295 +791,4 @@ func derivesThroughRepo(v ssa.Value, pred func(ssa.Value) bool) bool {
 		return false
 	}
 	return walk(v, 0)
-}
-
-func runC03O1(c *Ctx) {
-	var sets []string
-	for _, name := range []string{"NewTable", "NewTableCustom"} {
-		f := c.fn("route", name)
-		if !c.need("C03.O1", f, "route."+name) {
-			continue
-		}
-		// sort loop: a range over the table being built whose body calls sort.* on the element
-		var sortLoopHead *ssa.BasicBlock
-		for _, l := range loopsOf(f) {
-			isRangeOverTable := false
-			for _, in := range l.Head.Instrs {
-				if nx, ok := in.(*ssa.Next); ok {
-					if rg, ok := nx.Iter.(*ssa.Range); ok && namedIs(rg.X.Type(), "route.Table") {
-						isRangeOverTable = true
-					}
-				}
-			}
-			if !isRangeOverTable {
-				continue
-			}
-			for b := range l.Body {
-				for _, in := range b.Instrs {
-					if cc := callCommon(in); cc != nil {
-						switch calleeName(cc) {
-						case "sort.Sort", "sort.Stable", "slices.SortFunc", "slices.SortStableFunc", "sort.Slice", "sort.SliceStable":
-							if namedIs(stripIface(cc.Args[0]).Type(), "route.Routes") {
-								sortLoopHead = l.Head
-							}
-						}
-					}
-				}
-			}
-		}
-		n := 0
-		eachInstr(f, func(i ssa.Instruction) {
-			r, ok := i.(*ssa.Return)
-			if !ok || len(r.Results) != 2 || isNilConst(r.Results[0]) {
-				return
-			}
-			n++
-			c.check("C03.O1", "route."+name+"|routes of every host sorted before the table is returned", r.Pos(), sortLoopHead != nil && sortLoopHead.Dominates(r.Block()),
-				"lookup returns the first route whose path matches; 'longest matching path wins' therefore needs every host's routes sorted (descending path) before the table is handed out")
-		})
-		c.atLeast("C03.O1", "successful returns of route."+name, n, 1)
-		// dispatch set
-		var cmds []string
-		for _, m := range []string{"addRoute", "delRoute", "weighRoute"} {
-			callee := c.method("route", "Table", m)
-			eachInstr(f, func(i ssa.Instruction) {
-				if staticCalleeIs(i, callee) {
-					cmds = append(cmds, m)
-				}
-			})
-		}
-		sets = append(sets, strings.Join(cmds, ","))
-	}
-	if len(sets) == 2 {
-		c.check("C03.O1", "route.NewTable/NewTableCustom|same command dispatch", token.NoPos, sets[0] == sets[1] && strings.Count(sets[0], ",") == 2,
-			"both constructors must apply add, del and weight commands (same post-processing): ["+sets[0]+"] vs ["+sets[1]+"]")
-	}
-}
-
-func runC03O2O3L1(c *Ctx) {
-	sortFn := c.fn("route", "sortHostsReverseHostPort")
-	n := 0
-	for _, name := range []string{"matchingHosts", "matchingHostNoGlob"} {
-		f := c.method("route", "Table", name)
-		if !c.need("C03.O2", f, "route.Table."+name) {
-			continue
-		}
-		eachInstr(f, func(i ssa.Instruction) {
-			r, ok := i.(*ssa.Return)
-			if !ok || len(r.Results) != 1 {
-				return
-			}
-			n++
-			sorted := derives(r.Results[0], func(v ssa.Value) bool {
-				call, ok := v.(*ssa.Call)
-				if !ok {
-					return false
-				}
-				if sortFn != nil && call.Call.StaticCallee() == sortFn {
-					return true
-				}
-				return false
-			})
-			if !sorted {
-				// sorted in place before returning
-				eachInstr(f, func(j ssa.Instruction) {
-					if cc := callCommon(j); cc != nil && strings.HasPrefix(calleeName(cc), "sort.") && dominatesInstr(j, r) {
-						sorted = true
-					}
-				})
-			}
-			c.check("C03.O2", fnKey(f)+"|matching hosts returned most specific first", r.Pos(), sorted,
-				"the matching host keys come out of a map range in random order; they must go through the reverse-host sort so that an exact host is tried before a wildcard and a longer suffix before a shorter one")
-		})
-		// every key of the table is considered: the range loop has no early exit
-		for _, l := range loopsOf(f) {
-			for b := range l.Body {
-				if b == l.Head {
-					continue
-				}
-				for _, sx := range b.Succs {
-					if !l.Body[sx] {
-						c.check("C03.L1", fnKey(f)+"|all host keys are examined", b.Instrs[len(b.Instrs)-1].Pos(), false, "the host matcher leaves its loop early: a more specific host key later in the (random) map order is never considered")
-					}
-				}
-			}
-		}
-	}
-	c.atLeast("C03.O2", "returns of the host matchers", n, 2)
-
-	// O3
-	lk := c.method("route", "Table", "Lookup")
-	inner := c.method("route", "Table", "lookup")
-	if !c.need("C03.O3", lk, "route.Table.Lookup") || !c.need("C03.L1", inner, "route.Table.lookup") {
-		return
-	}
-	// the list iterated is append(<matched hosts>, "")
-	var rangedList ssa.Value
-	for _, l := range loopsOf(lk) {
-		for b := range l.Body {
-			for _, in := range b.Instrs {
-				if call, ok := in.(*ssa.Call); ok && call.Call.StaticCallee() == inner {
-					// host argument = element of the list
-					if u, ok := call.Call.Args[1].(*ssa.UnOp); ok {
-						if ia, ok := u.X.(*ssa.IndexAddr); ok {
-							rangedList = ia.X
-						}
-					}
-				}
-			}
-		}
-	}
-	okAppend := false
-	if call, ok := rangedList.(*ssa.Call); ok && calleeName(&call.Call) == "builtin.append" {
-		// first operand: the matched hosts; appended: exactly [""]
-		first := call.Call.Args[0]
-		fromMatchers := derives(first, func(v ssa.Value) bool {
-			cl, ok := v.(*ssa.Call)
-			return ok && cl.Call.StaticCallee() != nil && strings.HasPrefix(cl.Call.StaticCallee().Name(), "matchingHost")
-		})
-		emptyLast := false
-		if sl, ok := call.Call.Args[1].(*ssa.Slice); ok {
-			if arr, ok := sl.X.(*ssa.Alloc); ok {
-				cnt := 0
-				for _, r := range *arr.Referrers() {
-					if ia, ok := r.(*ssa.IndexAddr); ok {
-						for _, r2 := range *ia.Referrers() {
-							if st, ok := r2.(*ssa.Store); ok {
-								cnt++
-								if s, isS := constString(st.Val); isS && s == "" {
-									emptyLast = true
-								}
-							}
-						}
-					}
-				}
-				if cnt != 1 {
-					emptyLast = false
-				}
-			}
-		}
-		okAppend = fromMatchers && emptyLast
-	}
-	c.check("C03.O3", "(route.Table).Lookup|host-less routes tried after all matching hosts", lk.Pos(), okAppend,
-		"the list of host keys to try must be the matched hosts followed by \"\" (append(hosts, \"\")): host-less routes are a fallback and must not shadow host-specific routes")
-	// first non-nil target ends the loop (the only way back to the head with a target is the self-redirect skip)
-	okStop := true
-	for _, l := range loopsOf(lk) {
-		hasInner := false
-		for b := range l.Body {
-			for _, in := range b.Instrs {
-				if staticCalleeIs(in, inner) {
-					hasInner = true
-				}
-			}
-		}
-		if !hasInner {
-			continue
-		}
-		for k, p := range l.Head.Preds {
-			if !l.Body[p] {
-				continue
-			}
-			for _, in := range l.Head.Instrs {
-				phi, ok := in.(*ssa.Phi)
-				if !ok || !namedIs(phi.Type(), "route.Target") {
-					continue
-				}
-				e := phi.Edges[k]
-				if isNilConst(e) {
-					continue
-				}
-				// a non-nil-const carried target on a back edge is allowed only where it is known nil
-				if call, ok := e.(*ssa.Call); ok && call.Call.StaticCallee() == inner && knownNil(p, sameVal(e)) {
-					continue
-				}
-				if p.Dominates(p) && knownNil(p, sameVal(e)) {
-					continue
-				}
-				// back edge from the block testing `target != nil` (false edge): value is nil there
-				if iff, ok := p.Instrs[len(p.Instrs)-1].(*ssa.If); ok {
-					if nn, isN := nilFact(Fact{iff.Cond, p.Succs[0] == l.Head}, sameVal(e)); isN && !nn {
-						continue
-					}
-				}
-				okStop = false
-			}
-		}
-	}
-	c.check("C03.O3", "(route.Table).Lookup|first host that yields a target decides", lk.Pos(), okStop,
-		"the loop over host keys must stop at the first key whose lookup returns a target (most specific host wins); continuing with a target in hand lets a less specific host overwrite it")
-
-	// L1: inner lookup
-	okLower := false
-	eachInstr(inner, func(i ssa.Instruction) {
-		if lkp, ok := i.(*ssa.Lookup); ok && namedIs(lkp.X.Type(), "route.Table") {
-			if _, isLower := isCallTo(lkp.Index, "strings.ToLower"); isLower {
-				okLower = true
-			}
-		}
-	})
-	c.check("C03.L1", "(route.Table).lookup|key lower-cased", inner.Pos(), okLower, "routes are stored under lower-cased hosts; lookup must lower-case its key")
-	// the first route accepted by the matcher decides: inside the route loop, the block under `match(...) == true`
-	// cannot return to the loop head
-	okFirst := false
-	nMatch := 0
-	for _, l := range loopsOf(inner) {
-		for _, b := range inner.Blocks {
-			for _, ft := range factsAt(b) {
-				call, ok := ft.Cond.(*ssa.Call)
-				if !ok || !ft.Truth || call.Call.StaticCallee() != nil || call.Call.IsInvoke() {
-					continue
-				}
-				// dynamic call of the matcher parameter, made inside the route loop
-				if _, isParam := call.Call.Value.(*ssa.Parameter); !isParam || !l.Body[call.Block()] {
-					continue
-				}
-				if len(b.Preds) == 1 && !knownTrue(b.Preds[0], call) {
-					nMatch++
-					// from the accepted edge the loop head must be unreachable
-					back := b == l.Head || pathAvoidingFromBlockTo(b, l.Head, func(ssa.Instruction) bool { return false })
-					if nMatch == 1 {
-						okFirst = !back
-					} else if back {
-						okFirst = false
-					}
-				}
-			}
-		}
-	}
-	// every route of the host is offered to the matcher: no way from the loop body back to the head that skips the call
-	for _, l := range loopsOf(inner) {
-		var matchCall ssa.Instruction
-		for b := range l.Body {
-			for _, in := range b.Instrs {
-				if call, ok := in.(*ssa.Call); ok && call.Call.StaticCallee() == nil && !call.Call.IsInvoke() {
-					if _, isParam := call.Call.Value.(*ssa.Parameter); isParam {
-						matchCall = in
-					}
-				}
-			}
-		}
-		if matchCall == nil {
-			continue
-		}
-		skip := false
-		for _, entry := range l.Head.Succs {
-			if l.Body[entry] && entry != l.Head && pathAvoidingFromBlockTo(entry, l.Head, func(i ssa.Instruction) bool { return i == matchCall }) {
-				skip = true
-			}
-		}
-		c.check("C03.L1", "(route.Table).lookup|every route of the host is offered to the matcher", matchCall.Pos(), !skip,
-			"a route can be skipped without consulting the configured matcher (a pre-filter before match()): what looks redundant for the prefix matchers is wrong for glob, whose patterns can be longer than the paths they match — a request then misses its most specific route or gets no route although a candidate exists")
-	}
-	c.check("C03.L1", "(route.Table).lookup|first route accepted by the matcher decides", inner.Pos(), okFirst,
-		"routes are sorted most specific first; lookup must return at the first route the matcher accepts (a later, shorter path must not replace it)")
-}
-
-func knownTrue(b *ssa.BasicBlock, v ssa.Value) bool {
-	for _, f := range factsAt(b) {
-		if f.Cond == v && f.Truth {
-			return true
-		}
-	}
-	return false
 }
